@@ -357,13 +357,11 @@ func (g *Rig) performAsync(st Step) chan struct{} {
 }
 
 // perform runs an unsplit step: model first for subscribe (the fake source looks the subscriber
-// up), call, then model for everything else.
+// up), call, then model for everything else. The call is made from a goroutine of its own so
+// that a wedged resolver cannot wedge the harness.
 func (g *Rig) perform(st Step) {
-	call := g.prepare(st)
-	func() {
-		defer g.recoverPanic(st)
-		call()
-	}()
+	done := g.performAsync(st)
+	g.waitDone(done, "return of "+st.String())
 	if st.Op != OpSubscribe {
 		g.modelBegin(st, false)
 	}
